@@ -95,6 +95,8 @@ var regexPool = []string{
 	// patterns that match no message on their own (upper-case spellings); an inline flag of a
 	// NEIGHBOURING pattern must not reach them
 	`LABEL "`, `IS NOT DEFINED`, `STEP ID`,
+	// the empty pattern matches every message
+	``,
 }
 
 // patterns whose inline flags / quoting must stay confined to the pattern itself
@@ -816,9 +818,9 @@ func main() {
 		ns := genNested(rn)
 		sum.Evaluations++
 		sum.Dist["nested_runs"]++
-		mixed, firstOuter := false, !ns.Files[0].Inner
+		mixed, firstOuter := false, !ns.Files[0].Inner && !ns.Files[0].Upper
 		for _, f := range ns.Files {
-			if f.Inner == firstOuter {
+			if (f.Inner || f.Upper) == firstOuter {
 				mixed = true
 			}
 		}
